@@ -67,7 +67,7 @@ fn attack_strategy(tier: Tier) -> BoxedStrategy<Attack> {
         3 => proptest::collection::vec(any::<u8>(), 1..200).prop_map(Attack::Random),
         2 => proptest::collection::vec(prop_oneof![Just(b'*'), Just(b'$'), Just(b':'), Just(b'+'), Just(b'-'), Just(b'\r'), Just(b'\n'), Just(b'0'), Just(b'1'), Just(b'9')], 1..64).prop_map(Attack::Random),
         3 => frame_strategy(3, false).prop_map(Attack::NonCommand),
-        10 => (0u8..26, any::<u8>()).prop_map(|(v, k)| Attack::BadCommand(v, k)),
+        10 => (0u8..34, any::<u8>()).prop_map(|(v, k)| Attack::BadCommand(v, k)),
         3 => (1u16..u16::MAX, any::<bool>()).prop_map(|(f, c)| Attack::Truncated(f, c)),
         2 => (0u32..=maxlog, 0u32..1000, 0u8..4).prop_map(|(l, frac, v)| {
             let lo = 1u32 << l;
@@ -236,7 +236,23 @@ fn attack_bytes(a: &Attack, ncontrols: usize) -> (Vec<u8>, bool, &'static str) {
         Attack::BadCommand(v, k) => {
             let ck = control_key(*k as usize % ncontrols.max(1), *k);
             let nil = F::Null;
-            let b = match v % 26 {
+            let b = match v % 34 {
+                // a SET / DEL of a CONTROL key that is well-formed except that its length prefixes (all
+                // of them, or the array header alone) end in <byte> LF instead of CR LF
+                26..=33 => {
+                    let term: &[u8] = [&b";\n"[..], b" \n", b"x\n", b"\n\n"][(v % 34 - 26) as usize % 4];
+                    let only_header = v % 34 >= 30;
+                    let args: Vec<&[u8]> = if k % 2 == 0 { vec![b"SET", &ck, b"hijacked"] } else { vec![b"DEL", &ck] };
+                    let mut out = format!("*{}", args.len()).into_bytes();
+                    out.extend_from_slice(term);
+                    for a in args {
+                        out.extend_from_slice(format!("${}", a.len()).as_bytes());
+                        out.extend_from_slice(if only_header { b"\r\n" } else { term });
+                        out.extend_from_slice(a);
+                        out.extend_from_slice(b"\r\n");
+                    }
+                    out
+                }
                 // names that are near misses of the three commands, with a fitting argument count
                 18 => command(&[b"DELETE", &ck]),
                 19 => command(&[b"SETNX", &ck, b"hijacked"]),
